@@ -146,7 +146,7 @@ Proof. vm_compute. reflexivity. Qed.
 From AV.Model Require Import Interp.
 From AV.Spec Require Import WorldSpec.
 From AV.Proofs Require Import NoFault WorldProofs.
-(** WHOLE HISTORIES.  [WorldSpec.spec_run] gives a script its meaning directly on lists (std::vec::Vec semantics: a world of vectors, fresh identities, which values the destructor runs on); [Interp.run_step] is the byte-level machine the harness's trace is compared with.  For EVERY list of operations of the fragment (new, with_capacity, push, insert - every fresh-value source kind and lazy clones of elements of other vectors, typed and erased path -, pop / remove / swap_remove with the handle dropped, downcast, forgotten or moved by push or insert into ANOTHER vector, clear, get, at, vector drop, reserve / reserve_exact / shrink_to_fit / shrink_to, drain and splice with any range and consumption pattern, clone / clone_empty / clone_empty_in, iter / iter_mut with any call pattern, cloned iterators, nth / nth_back, element handles read, written and swapped, type probes, refused wrong-type swap, wrong-typed values offered to push / insert, refused downcasts of removal handles; any number of vectors; every element size incl. 0, every backend kind incl. fixed capacity and the relocating backend with prebuilt capacity), every step's outcome, panic kind, returned values and user-code events are the specification's, the machine state represents the specification's lists afterwards (typed snapshot = list), and no step faults.  Hypothesis [Admissible]: at each growth the allocator can serve the request (decidable: [Admissibleb]); non-vacuity: [ex_admissible], [ex_spec_defined] on a 94-step history through every case. *)
+(** WHOLE HISTORIES.  [WorldSpec.spec_run] gives a script its meaning directly on lists (std::vec::Vec semantics: a world of vectors, fresh identities, which values the destructor runs on); [Interp.run_step] is the byte-level machine the harness's trace is compared with.  For EVERY list of operations of the fragment (new, with_capacity, push, insert - every fresh-value source kind, lazy clones of elements and removal handles of other vectors, typed and erased path -, pop / remove / swap_remove with the handle dropped, downcast, forgotten or moved by push or insert into ANOTHER vector, clear, get, at, vector drop, reserve / reserve_exact / shrink_to_fit / shrink_to, drain and splice with any range and consumption pattern, clone / clone_empty / clone_empty_in, iter / iter_mut with any call pattern, cloned iterators, nth / nth_back, element handles read, written and swapped, type probes, refused wrong-type swap, wrong-typed values offered to push / insert, refused downcasts of removal handles; any number of vectors; every element size incl. 0, every backend kind incl. fixed capacity and the relocating backend with prebuilt capacity), every step's outcome, panic kind, returned values and user-code events are the specification's, the machine state represents the specification's lists afterwards (typed snapshot = list), and no step faults.  Hypothesis [Admissible]: at each growth the allocator can serve the request (decidable: [Admissibleb]); non-vacuity: [ex_admissible], [ex_spec_defined] on a 99-step history through every case. *)
 (** one script step *)
 Theorem C01_step_refines :
   forall (c : cfg) (w : world) (st : astate) (o : op) (r : sres),
@@ -202,6 +202,19 @@ Theorem C01_example_spec_defined :
   exists rs : list sres, spec_run ex_cfg [] 1 ex_ops = Some rs /\ length rs = length ex_ops.
 Proof. exact ex_spec_defined. Qed.
 
+(** a removal handle of another vector offered to push / insert = the same handle moved by its sink *)
+Theorem C01_handle_sources_in_histories :
+  forall (c : cfg) (w : world) (st : astate) (v : nat) (idx : option N) (src : nat) 
+           (k : tkind) (sidx : N) (r : sres),
+         cfg_wf c ->
+         WRep c w st ->
+         ufuse (wuw w) = None ->
+         adm_vec c w v ->
+         sp_offer_temp c st (unext (wuw w)) v idx src k sidx = Some r ->
+         res_matches c w
+           ((do o <- make_offer c (STemp src k sidx); offer_into c v o (raw_action c idx);; ret (0, [])) w) r.
+Proof. exact exec_offer_temp. Qed.
+
 (* ---- end histories ---- *)
 Print Assumptions C01_snapshot.
 Print Assumptions C01_new.
@@ -227,3 +240,4 @@ Print Assumptions C01_history_from_empty_world.
 Print Assumptions C01_admissibility_decidable.
 Print Assumptions C01_example_admissible.
 Print Assumptions C01_example_spec_defined.
+Print Assumptions C01_handle_sources_in_histories.
